@@ -6,17 +6,16 @@
              Pending  -> if duration >= now - start then recv_timeout(duration - (now - start))
                                                        Ok -> loop, Err -> return Timeout
                          else return Timeout
-   The waker sends () into a sync_channel(1): b_tok = the buffer holds a token,
-   b_blocked = senders blocked because the buffer is full.
+   The waker does try_send(()) into a sync_channel(1) (fix 7de0553): b_tok = the
+   buffer holds a token; a wake on a full buffer is dropped and never blocks the
+   waking thread (one buffered token already guarantees the next recv returns).
    The future is the environment.  It is taken to be well behaved: it has one
    completion event (BComplete: from then on poll returns Ready(value)) and the
    completion wakes the waker; it may also wake without completing (BSpurious:
    intermediate progress).  b_done is the ghost completion time.
    Any thread timing = any interleaving of BTick with the other steps.
-   The waker's send is SyncSender::send, which BLOCKS while the buffer is full: a
-   wake issued by another thread just waits for the next recv (b_blocked), but a
-   wake issued from inside poll (BSelfWake) on a full buffer blocks the only thread
-   that could ever receive (BStuck).
+   A wake may also be issued from inside poll by the polling thread itself
+   (BSelfWake, the yield pattern); like every wake it never blocks.
    recv_timeout is taken as specified: it returns Ok if a token is there, and
    Timeout only when no token is there and the limit has been reached. *)
 From DustDDS Require Export Base.Machine.
@@ -28,7 +27,6 @@ Inductive bpc : Type :=
 | BPolling                         (* about to poll the future *)
 | BChecking                        (* poll returned Pending; about to read the clock *)
 | BWaiting (lim : Z)               (* in recv_timeout; lim = absolute time limit *)
-| BStuck                           (* the polling thread is blocked in the waker's send, forever *)
 | BDone (r : bres) (unseen : bool) (at_ : Z).
     (* returned r at clock at_; unseen = a wake token was in the channel when
        Timeout was returned without looking at the channel (the else branch) *)
@@ -39,53 +37,51 @@ Record bst : Type := mkB {
   b_dur : Z;            (* duration *)
   b_val : Z;            (* the future's output *)
   b_tok : bool;
-  b_blocked : Z;
   b_pc : bpc;
   b_done : option Z;    (* ghost: clock at which the future completed *)
   b_polls : Z           (* number of polls so far *)
 }.
 
-Definition binit (now dur val : Z) : bst := mkB now now dur val false 0 BPolling None 0.
+Definition binit (now dur val : Z) : bst := mkB now now dur val false BPolling None 0.
 
 Inductive bop : Type :=
 | BTick (d : Z)
 | BComplete          (* the future completes (another thread / the timer) and wakes *)
 | BSpurious          (* the future makes progress and wakes, without completing *)
-| BSelfWake          (* the future wakes its waker from INSIDE poll (yield pattern): the send is done by
-                        the polling thread itself; on a full buffer it blocks, and nobody can empty it *)
+| BSelfWake          (* the future wakes its waker from INSIDE poll (yield pattern): the try_send is
+                        done by the polling thread itself *)
 | BPoll
 | BCheck
 | BRecvOk
 | BRecvTimeout.
 
+(* try_send: fills the one-slot buffer, or is dropped when it is already full *)
 Definition bwake (s : bst) : bst :=
-  if b_tok s
-  then mkB (b_clock s) (b_start s) (b_dur s) (b_val s) true (b_blocked s + 1) (b_pc s) (b_done s) (b_polls s)
-  else mkB (b_clock s) (b_start s) (b_dur s) (b_val s) true (b_blocked s) (b_pc s) (b_done s) (b_polls s).
+  mkB (b_clock s) (b_start s) (b_dur s) (b_val s) true (b_pc s) (b_done s) (b_polls s).
 
 Definition set_bpc (s : bst) (p : bpc) : bst :=
-  mkB (b_clock s) (b_start s) (b_dur s) (b_val s) (b_tok s) (b_blocked s) p (b_done s) (b_polls s).
+  mkB (b_clock s) (b_start s) (b_dur s) (b_val s) (b_tok s) p (b_done s) (b_polls s).
 
 Definition bstep (s : bst) (o : bop) : bst :=
   match o with
-  | BTick d => mkB (b_clock s + Z.max 0 d) (b_start s) (b_dur s) (b_val s) (b_tok s) (b_blocked s)
+  | BTick d => mkB (b_clock s + Z.max 0 d) (b_start s) (b_dur s) (b_val s) (b_tok s)
                    (b_pc s) (b_done s) (b_polls s)
   | BComplete =>
       match b_done s with
       | Some _ => s
-      | None => bwake (mkB (b_clock s) (b_start s) (b_dur s) (b_val s) (b_tok s) (b_blocked s)
+      | None => bwake (mkB (b_clock s) (b_start s) (b_dur s) (b_val s) (b_tok s)
                            (b_pc s) (Some (b_clock s)) (b_polls s))
       end
   | BSpurious => bwake s
   | BSelfWake =>
       match b_pc s with
-      | BPolling => if b_tok s then set_bpc s BStuck else bwake s
+      | BPolling => bwake s
       | _ => s
       end
   | BPoll =>
       match b_pc s with
       | BPolling =>
-          let s' := mkB (b_clock s) (b_start s) (b_dur s) (b_val s) (b_tok s) (b_blocked s)
+          let s' := mkB (b_clock s) (b_start s) (b_dur s) (b_val s) (b_tok s)
                         (b_pc s) (b_done s) (b_polls s + 1) in
           match b_done s with
           | Some _ => set_bpc s' (BDone (BOk (b_val s)) false (b_clock s))
@@ -105,10 +101,8 @@ Definition bstep (s : bst) (o : bop) : bst :=
   | BRecvOk =>
       match b_pc s with
       | BWaiting _ =>
-          if b_tok s then
-            if 0 <? b_blocked s
-            then mkB (b_clock s) (b_start s) (b_dur s) (b_val s) true (b_blocked s - 1) BPolling (b_done s) (b_polls s)
-            else mkB (b_clock s) (b_start s) (b_dur s) (b_val s) false (b_blocked s) BPolling (b_done s) (b_polls s)
+          if b_tok s
+          then mkB (b_clock s) (b_start s) (b_dur s) (b_val s) false BPolling (b_done s) (b_polls s)
           else s
       | _ => s
       end
